@@ -39,7 +39,7 @@ def shapes(tier):
             seen.add(k); uniq.append(s)
     return uniq
 
-MODES = {0: 'roundtrip', 1: 'truncate', 2: 'extend', 3: 'hdrdamage'}
+MODES = {0: 'roundtrip', 1: 'truncate', 2: 'extend', 3: 'hdrdamage', 4: 'determinism'}
 
 def rt_job(sh, mode, tier, prefix):
     fm = filemax(sh)
